@@ -184,7 +184,16 @@ func (b *BackoffObj) Invoke(ex *Exec, fr *frame, method string, args []Value) Va
 	case "Reset":
 		return nil
 	case "NextBackOff":
-		return ex.tt.BV(64, 0)
+		if ex.clock == nil {
+			return ex.tt.BV(64, 0)
+		}
+		// ExponentialBackOff with the default settings: the first interval is 500 ms
+		// randomised by +-50 %, later ones grow; modelled as an arbitrary delay of
+		// 250 ms .. 5 s (not part of the replay tape: natively the real policy sleeps)
+		d := ex.freshBV(64, "backoffdelay")
+		ex.assume(ex.tt.Cmp(OSle, ex.tt.BV(64, 250_000_000), d))
+		ex.assume(ex.tt.Cmp(OSle, d, ex.tt.BV(64, 5_000_000_000)))
+		return d
 	case "Context":
 		return b.ctx
 	}
@@ -540,11 +549,16 @@ func (ex *Exec) backoffRetry(fr *frame, op Value, b Value) Value {
 		if ex.clock != nil {
 			next := tt.BV(64, 0)
 			if iv, ok := inner.(Iface); ok && iv.t != nil {
-				if _, stub := iv.v.(StubObject); !stub {
-					if m := ex.eng.prog.LookupMethod(iv.t, nil, "NextBackOff"); m != nil {
-						next = ex.callFunction(fr, m, []Value{iv.v}, nil, 0).(*Term)
-					}
+				if so, stub := iv.v.(StubObject); stub {
+					next = so.Invoke(ex, fr, "NextBackOff", nil).(*Term)
+				} else if m := ex.eng.prog.LookupMethod(iv.t, nil, "NextBackOff"); m != nil {
+					next = ex.callFunction(fr, m, []Value{iv.v}, nil, 0).(*Term)
 				}
+			} else if so, ok := inner.(StubObject); ok {
+				next = so.Invoke(ex, fr, "NextBackOff", nil).(*Term)
+			}
+			if ex.branch(tt.Eq(next, tt.BV(64, ^uint64(0)))) { // backoff.Stop
+				return err
 			}
 			wake := tt.Bin(OAdd, ex.clock, next)
 			if dl := ex.ctxDeadline(ctx); dl != nil {
